@@ -12,12 +12,13 @@ import (
 
 func init() {
 	p := register("C25", func(r *Report) {
-		r.Explanation = "Every instruction that can panic in packages gateway, client, transactions, topics and util is enumerated; a green result means each has a named argument. (R1) unchecked type assertions: NewControlPacket(<const>).(*T) agrees with paho's code table; assertions on a transaction's stored step data are implied by the types all Proceed sites of that transaction family store - restricted to the Proceed sites of the state the assertion is guarded by when a state guard dominates it; assertions on sync.Map keys/values are implied by all Store sites of that map; (R2) index and slice operations: absent from the compiler's unproven-bounds list, or dominated by a length guard, or the inlined bytes.Buffer accessor; (R3) explicit panics only behind a failed comma-ok assertion that the type-flow shows cannot fail; (R4) pointer fields reset to nil after construction are never used by another goroutine without a common lock; (R5) plain maps shared between goroutines are only accessed under a common lock; (R6) the packet pointer the client's PUBREL handler dereferences is stored on every path of the handler that creates the transaction, for every (stored transaction, DUP) combination (C17-R6, re-run here). Known finding: the sleep transaction's DISCONNECT pointer. Not decided: panics inside dependencies, stack or memory exhaustion."
+		r.Explanation = "Every instruction that can panic in packages gateway, client, transactions, topics and util is enumerated; a green result means each has a named argument. (R1) unchecked type assertions: NewControlPacket(<const>).(*T) agrees with paho's code table; assertions on a transaction's stored step data are implied by the types all Proceed sites of that transaction family store - restricted to the Proceed sites of the state the assertion is guarded by when a state guard dominates it; assertions on sync.Map keys/values are implied by all Store sites of that map; (R2) index and slice operations: absent from the compiler's unproven-bounds list, or dominated by a length guard, or the inlined bytes.Buffer accessor; (R3) explicit panics only behind a failed comma-ok assertion that the type-flow shows cannot fail; (R4) pointer fields reset to nil after construction are never used by another goroutine without a common lock; (R5) plain maps shared between goroutines are only accessed under a common lock; (R6) the packet pointer the client's PUBREL handler dereferences is stored on every path of the handler that creates the transaction, for every (stored transaction, DUP) combination (C17-R6, re-run here); (R7) packet pointers of stateful transactions that are filled in after construction are used only under a nil test or under a state guard whose every entry follows the store of the pointer. Known finding: the sleep transaction's DISCONNECT pointer. Not decided: panics inside dependencies, stack or memory exhaustion."
 		r.floor("R1", 15)
 		r.floor("R2", 2)
 		r.floor("R3", 1)
 		r.floor("R5", 1)
 		r.floor("R6", 4)
+		r.floor("R7", 1)
 	}, checkC25)
 	p.post = postC25
 }
@@ -312,6 +313,8 @@ func checkC25(c *Ctx, r *Report) {
 	// handler per (stored transaction, DUP) and requires the store on every accepting path; re-run here - an
 	// unconditional dereference of a conditionally stored pointer is a nil dereference some packet sequence reaches)
 	importRulesF(c, r, "C17", map[string]string{"R6": "R6"}, nil)
+	c.checkStateGuardedPointers(r, "R7", "gateway")
+	c.checkStateGuardedPointers(r, "R7", "client")
 	c.checkStoresReceivedPublish(r, "R6", "a path of the handler that takes the QoS 2 PUBLISH does not store it: the transaction stays registered with a nil PUBLISH and the PUBREL handler dereferences it (topic lookup) - a PUBLISH(DUP=1) followed by PUBREL crashes the client's receive loop with a nil pointer dereference")
 	tf := c.newTypeFlow()
 	sites := map[string][]proceedSite{}
@@ -877,4 +880,285 @@ func (c *Ctx) mapWritten(tname, field string) bool {
 		})
 	}
 	return found
+}
+
+// checkStateGuardedPointers (C25-R7): packet pointers of stateful transactions that are nil at construction and filled
+// in later (by a setter) may only be dereferenced where a nil test or a state guard protects the read, and every way of
+// entering the guarding state must come after the pointer was set: for a read under State == S, every Proceed-like call
+// that can pass S (constant or phi edge) is dominated, in its function, by the store / setter call. Otherwise some
+// packet sequence reaches the read with a nil pointer.
+func (c *Ctx) checkStateGuardedPointers(r *Report, rule, rel string) {
+	pkg := modPath + "/" + rel
+	type fieldKey struct{ cell string }
+	// candidate fields: *packet fields of structs of the package that (transitively) embed a RetryTransaction
+	cands := map[string]bool{}
+	setterNames := map[string]map[string]bool{} // cell -> method names that set it
+	for _, f := range c.repoFuncs(rel) {
+		allInstrs(f, func(i ssa.Instruction) {
+			st, ok := i.(*ssa.Store)
+			if !ok {
+				return
+			}
+			fa, ok := st.Addr.(*ssa.FieldAddr)
+			if !ok || isFreshObject(fa.X) {
+				return
+			}
+			pt, ok := derefType(fa.Type()).Underlying().(*types.Pointer)
+			if !ok {
+				return
+			}
+			nt := namedOf(pt.Elem())
+			if nt == nil || nt.Obj().Pkg() == nil || !(nt.Obj().Pkg().Path() == pkPackets1 || nt.Obj().Pkg().Path() == pahoPkts) {
+				return
+			}
+			owner := namedOf(derefType(fa.X.Type()))
+			if owner == nil || owner.Obj().Pkg() == nil || owner.Obj().Pkg().Path() != pkg {
+				return
+			}
+			if !c.hasStateField(owner) {
+				return
+			}
+			cell := fieldCell(fa)
+			cands[cell] = true
+			if p, ok := st.Val.(*ssa.Parameter); ok && p.Parent() == f && f.Signature.Recv() != nil {
+				if setterNames[cell] == nil {
+					setterNames[cell] = map[string]bool{}
+				}
+				setterNames[cell][f.Name()] = true
+			}
+		})
+	}
+	// exclude fields that every constructor literal initialises
+	for cell := range cands {
+		for _, k := range c.txCtors(rel) {
+			allInstrs(k, func(i ssa.Instruction) {
+				if st, ok := i.(*ssa.Store); ok {
+					if fa, ok := st.Addr.(*ssa.FieldAddr); ok && fieldCell(fa) == cell && isFreshObject(fa.X) {
+						if _, isNil := st.Val.(*ssa.Const); !isNil {
+							delete(cands, cell)
+						}
+					}
+				}
+			})
+		}
+	}
+	if len(cands) == 0 {
+		r.ok(rule, rel+":late-bound-packet-pointers", "-", "no stateful transaction of this package has a packet pointer that is filled in after construction")
+		return
+	}
+	isSet := func(i ssa.Instruction, cell string) bool {
+		if st, ok := i.(*ssa.Store); ok {
+			if fa, ok := st.Addr.(*ssa.FieldAddr); ok && fieldCell(fa) == cell {
+				return true
+			}
+		}
+		if ci, ok := i.(ssa.CallInstruction); ok {
+			nm := ""
+			if ci.Common().IsInvoke() {
+				nm = ci.Common().Method.Name()
+			} else if g := staticCallee(ci.Common()); g != nil {
+				nm = g.Name()
+			}
+			return setterNames[cell][nm]
+		}
+		return false
+	}
+	dominatedBySet := func(f *ssa.Function, b *ssa.BasicBlock, before ssa.Instruction, cell string) bool {
+		ok := false
+		allInstrs(f, func(i ssa.Instruction) {
+			if !isSet(i, cell) {
+				return
+			}
+			if i.Block() == b {
+				if before == nil {
+					ok = true
+					return
+				}
+				for _, x := range b.Instrs {
+					if x == i {
+						ok = true
+						return
+					}
+					if x == before {
+						return
+					}
+				}
+			} else if i.Block().Dominates(b) {
+				ok = true
+			}
+		})
+		return ok
+	}
+	stateOfGuard := func(gs []Guard) (int64, bool) {
+		for _, g := range gs {
+			x, y, op, isCmp := cmpGuard(g)
+			if !isCmp || op != token.EQL {
+				continue
+			}
+			for _, pair := range [][2]ssa.Value{{x, y}, {y, x}} {
+				mi, ok := pair[1].(*ssa.MakeInterface)
+				if !ok {
+					continue
+				}
+				k, isC := constInt(mi.X)
+				if !isC {
+					continue
+				}
+				if u, ok := pair[0].(*ssa.UnOp); ok {
+					if fa, ok := u.X.(*ssa.FieldAddr); ok && typeStr(derefType(fa.X.Type())) == "transactions.RetryTransaction" {
+						return k, true
+					}
+				}
+			}
+		}
+		return 0, false
+	}
+	// entries into a state: Proceed-like calls with a constant (or phi of constants) of a named integer type of the package
+	type entry struct {
+		f     *ssa.Function
+		block *ssa.BasicBlock
+		at    ssa.Instruction
+	}
+	entries := map[int64][]entry{}
+	for _, f := range c.repoFuncs(rel) {
+		allInstrs(f, func(i ssa.Instruction) {
+			ci, ok := i.(ssa.CallInstruction)
+			if !ok {
+				return
+			}
+			nm := ""
+			if ci.Common().IsInvoke() {
+				nm = ci.Common().Method.Name()
+			} else if g := staticCallee(ci.Common()); g != nil {
+				nm = g.Name()
+			}
+			if !strings.HasPrefix(nm, "Proceed") {
+				return
+			}
+			for _, a := range ci.Common().Args {
+				v := a
+				if mi, ok := v.(*ssa.MakeInterface); ok {
+					v = mi.X
+				}
+				nt := namedOf(v.Type())
+				if nt == nil || nt.Obj().Pkg() == nil || nt.Obj().Pkg().Path() != pkg {
+					continue
+				}
+				if bt, ok := nt.Underlying().(*types.Basic); !ok || bt.Info()&types.IsInteger == 0 {
+					continue
+				}
+				if k, ok := constInt(v); ok {
+					entries[k] = append(entries[k], entry{f, i.Block(), i})
+				} else if ph, ok := v.(*ssa.Phi); ok {
+					for ei, e := range ph.Edges {
+						if k, ok := constInt(e); ok {
+							entries[k] = append(entries[k], entry{f, ph.Block().Preds[ei], nil})
+						}
+					}
+				}
+			}
+		})
+	}
+	for cell := range cands {
+		key := rel + ":" + strings.TrimPrefix(cell, "f:") + ":read-only-where-set"
+		bad := ""
+		nRead := 0
+		for _, f := range c.repoFuncs(rel) {
+			allInstrs(f, func(i ssa.Instruction) {
+				u, ok := i.(*ssa.UnOp)
+				if !ok || u.Op != token.MUL {
+					return
+				}
+				fa, ok := u.X.(*ssa.FieldAddr)
+				if !ok || fieldCell(fa) != cell || u.Referrers() == nil {
+					return
+				}
+				for _, use := range *u.Referrers() {
+					deref := false
+					switch x := use.(type) {
+					case *ssa.FieldAddr:
+						deref = x.X == ssa.Value(u)
+					case *ssa.MakeInterface:
+						deref = true
+					case ssa.CallInstruction:
+						deref = true
+					}
+					if !deref {
+						continue
+					}
+					nRead++
+					gs := guardsOf(use.Block())
+					nilChecked := false
+					for _, g := range gs {
+						x, y, op, isCmp := cmpGuard(g)
+						if isCmp && op == token.NEQ && (isNilConst(y) || isNilConst(x)) {
+							for _, v := range []ssa.Value{x, y} {
+								if uu, ok := v.(*ssa.UnOp); ok {
+									if fa2, ok := uu.X.(*ssa.FieldAddr); ok && fieldCell(fa2) == cell {
+										nilChecked = true
+									}
+								}
+							}
+						}
+					}
+					if nilChecked {
+						continue
+					}
+					s, has := stateOfGuard(gs)
+					if !has {
+						bad = c.instrPos(use) + ": " + fnKey(f) + " uses the pointer without a nil test and without a state guard"
+						continue
+					}
+					if len(entries[s]) == 0 {
+						continue // the guarding state is never entered through a Proceed-like call the analysis sees
+					}
+					for _, en := range entries[s] {
+						if !dominatedBySet(en.f, en.block, en.at, cell) {
+							p := c.pos(en.f.Pos())
+							if en.at != nil {
+								p = c.instrPos(en.at)
+							}
+							bad = fmt.Sprintf("%s: %s uses the pointer under the guard state == %d, but %s (%s) enters that state on a path on which the pointer was never set", c.instrPos(use), fnKey(f), s, fnKey(en.f), p)
+						}
+					}
+				}
+			})
+		}
+		if nRead == 0 {
+			r.ok(rule, key, "-", "never dereferenced")
+			continue
+		}
+		r.cond(bad == "", rule, key, "-", fmt.Sprintf("%d uses: each under a nil test, or under a state every entry of which follows the store of the pointer", nRead),
+			"a packet pointer that is nil at construction can be dereferenced while still nil ("+bad+"): some packet sequence reaches it and the session goroutine panics")
+	}
+}
+
+// hasStateField: the named struct type (transitively) embeds transactions.RetryTransaction (which carries State).
+func (c *Ctx) hasStateField(nt *types.Named) bool {
+	seen := map[types.Type]bool{}
+	var rec func(t types.Type, d int) bool
+	rec = func(t types.Type, d int) bool {
+		if d > 4 || seen[t] {
+			return false
+		}
+		seen[t] = true
+		st := structOf(t)
+		if st == nil {
+			return false
+		}
+		for k := 0; k < st.NumFields(); k++ {
+			f := st.Field(k)
+			if !f.Embedded() {
+				continue
+			}
+			if typeStr(derefType(f.Type())) == "transactions.RetryTransaction" {
+				return true
+			}
+			if rec(derefType(f.Type()), d+1) {
+				return true
+			}
+		}
+		return false
+	}
+	return rec(nt, 0)
 }
